@@ -1,10 +1,11 @@
 #!/bin/sh
+here="$(cd "$(dirname "$0")" && pwd)"
 # usage: seed_run.sh <patch.diff> <tier> <check id>...   applies the patch to /repo, runs the checks, always reverts.
 p="$1"; tier="$2"; shift; shift
 git -C /repo apply "$p" || { echo "patch does not apply" >&2; exit 3; }
 trap 'git -C /repo checkout -- . ; git -C /repo clean -fdq' EXIT INT TERM
 for id in "$@"; do
-  out=$(sh /verif/scripts/check.sh $id $tier 2>&1); rc=$?
+  out=$(sh $here/check.sh $id $tier 2>&1); rc=$?
   nv=$(echo "$out" | grep -c "^VIOLATION")
   echo "== $id rc=$rc violations=$nv"
   echo "$out" | grep -A2 "^VIOLATION" | head -9 | cut -c1-260
